@@ -338,6 +338,26 @@ theorem modAt_ins (f : α → α) (n0 : Nat) (xs l : List α) (h : n0 ≤ l.leng
       · have e : (i + xs.length = j) ↔ (i = j - xs.length) := by omega
         simp [h1, h2, e]
 
+/-- the first `n + |xs|` entries of an insertion at `n0 ≤ n` are the insertion into the first `n` entries -/
+theorem take_ins_ge (n0 : Nat) (xs l : List α) (h : n0 ≤ l.length) (n : Nat) (hn : n0 ≤ n) :
+    (ins n0 xs l).take (n + xs.length) = ins n0 xs (l.take n) := by
+  have h' : n0 ≤ (l.take n).length := by simp only [List.length_take]; omega
+  apply List.ext_getElem?
+  intro j
+  rw [List.getElem?_take, getElem?_ins _ _ _ h, getElem?_ins _ _ _ h']
+  by_cases h1 : j < n0
+  · have h2 : j < n + xs.length := by omega
+    have h3 : j < n := by omega
+    simp [h1, h2, h3, List.getElem?_take]
+  · by_cases h2 : j < n0 + xs.length
+    · have h3 : j < n + xs.length := by omega
+      simp [h1, h2, h3]
+    · by_cases h3 : j < n + xs.length
+      · have h4 : j - xs.length < n := by omega
+        simp [h1, h2, h3, h4, List.getElem?_take]
+      · have h4 : ¬ j - xs.length < n := by omega
+        simp [h1, h2, h3, h4, List.getElem?_take]
+
 theorem ins_append_singleton (n0 : Nat) (xs l : List α) (a : α) (h : n0 ≤ l.length) :
     ins n0 xs (l ++ [a]) = ins n0 xs l ++ [a] := by
   unfold ins
@@ -395,24 +415,6 @@ theorem findName_ins {n : String} {xs l : List String} {n0 : Nat} (hx : xs.conta
       have : ¬ j + n0 < n0 := by omega
       simp only [Option.map_some, ren, this, if_false, Option.some.injEq]
       omega
-
-theorem findFn_append (n : String) (a : Nat) (l1 l2 : List Fn) :
-    findFn n a (l1 ++ l2) = match findFn n a l1 with
-      | some i => some i
-      | none => (findFn n a l2).map (· + l1.length) := by
-  induction l1 with
-  | nil => simp [findFn]
-  | cons x xs ih =>
-    simp only [List.cons_append, findFn]
-    split
-    · rfl
-    · rw [ih]
-      cases findFn n a xs with
-      | some i => rfl
-      | none =>
-        cases findFn n a l2 with
-        | none => rfl
-        | some j => simp only [Option.map_some, List.length_cons]; rfl
 
 theorem findFn_not_mem {n : String} {a : Nat} {xs : List Fn} (h : (xs.all fun f => !f.is n a) = true) : findFn n a xs = none := by
   induction xs with
@@ -648,6 +650,57 @@ theorem rollback_lift {x : Extra} {fns : List Fn} (hm : x.m0 ≤ fns.length) (bk
     | none => rfl
     | some i => simp only [Option.map_some]; rw [modAt_ins _ _ _ _ hm, getElem?_ins_ren _ _ _ hm]
 
+theorem journalEntry_lift {x : Extra} {fns : List Fn} (hm : x.m0 ≤ fns.length) {n : String} {a : Nat}
+    (hk : (x.fns.all fun f => !f.is n a) = true) :
+    journalEntry (ins x.m0 x.fns fns) n a = (journalEntry fns n a).map fun p => (ren x.m0 x.fns.length p.1, p.2) := by
+  unfold journalEntry
+  rw [findFn_ins hk hm]
+  cases findFn n a fns with
+  | none => rfl
+  | some i =>
+    simp only [Option.map_some]
+    rw [getElem?_ins_ren _ _ _ hm]
+    cases fns[i]? <;> rfl
+
+theorem length_revertFns (mark : Nat) (j : List (Nat × Fn)) (fns : List Fn) :
+    (revertFns mark j fns).length = min mark fns.length := by
+  unfold revertFns
+  have : ∀ (acc : List Fn), (j.foldl (fun acc p => if p.1 < mark then modAt (fun _ => p.2) p.1 acc else acc) acc).length = acc.length := by
+    induction j with
+    | nil => intro acc; rfl
+    | cons p ps ih =>
+      intro acc
+      simp only [List.foldl_cons]
+      rw [ih]
+      split
+      · exact length_modAt _ _ _
+      · rfl
+  rw [this, List.length_take]
+
+/-- `parsingRevert` commutes with the insertion of left-over functions at `m0`, when the mark is not before `m0` -/
+theorem revertFns_lift (m0 : Nat) (xs : List Fn) {mark : Nat} (hm0 : m0 ≤ mark) (j : List (Nat × Fn)) {fns : List Fn}
+    (hm : m0 ≤ fns.length) :
+    revertFns (mark + xs.length) (j.map fun p => (ren m0 xs.length p.1, p.2)) (ins m0 xs fns)
+      = ins m0 xs (revertFns mark j fns) := by
+  unfold revertFns
+  rw [take_ins_ge _ _ _ hm _ hm0]
+  have hacc : m0 ≤ (fns.take mark).length := by simp only [List.length_take]; omega
+  generalize fns.take mark = acc at hacc
+  induction j generalizing acc with
+  | nil => rfl
+  | cons p ps ih =>
+    simp only [List.map_cons, List.foldl_cons]
+    have hc : (ren m0 xs.length p.1 < mark + xs.length) ↔ (p.1 < mark) := by
+      unfold ren; split <;> omega
+    by_cases hp : p.1 < mark
+    · have hp' := hc.mpr hp
+      simp only [hp, hp', if_true]
+      rw [modAt_ins _ _ _ _ hacc]
+      exact ih _ (by rw [length_modAt]; exact hacc)
+    · have hp' : ¬ ren m0 xs.length p.1 < mark + xs.length := fun h => hp (hc.mp h)
+      simp only [hp, hp', if_false]
+      exact ih _ hacc
+
 /-- invariant of the undisturbed run that the insertion needs -/
 structure Good (x : Extra) (st : St) : Prop where
   fits : Fits x st.ctx
@@ -655,6 +708,8 @@ structure Good (x : Extra) (st : St) : Prop where
     (x.fns.all fun f => !f.is ch.name ch.arity) = true ∧
     (∀ b, st.ctx.fbacked = some b → b.is ch.name ch.arity = true) ∧
     (st.ctx.fbacked = none → x.m0 < st.ctx.fns.length)
+  /-- the mark of the parse is not before the insertion point of the left-over functions -/
+  mark : x.m0 ≤ st.fmark
 
 theorem length_createOrReplace (fns : List Fn) (n : String) (a fid : Nat) :
     fns.length ≤ (createOrReplace fns n a fid).1.length := by
@@ -673,7 +728,7 @@ theorem good_step {H : Decl → Nat} {x : Extra} {st st' : St} {e : Ev} (hg : Go
     have hop := hg.opened ch hch
     have keep : ∀ d : Nat, Good x { st with child := some { ch with depth := d } } := by
       intro d
-      refine ⟨hg.fits, ?_⟩
+      refine ⟨hg.fits, ?_, hg.mark⟩
       intro ch' h'
       simp only [Option.some.injEq] at h'
       subst h'
@@ -688,7 +743,7 @@ theorem good_step {H : Decl → Nat} {x : Extra} {st st' : St} {e : Ev} (hg : Go
       split at hstep
       · split at hstep
         · cases hstep
-          refine ⟨⟨hg.fits.n, hal, ?_⟩, ?_⟩
+          refine ⟨⟨hg.fits.n, hal, ?_⟩, ?_, hg.mark⟩
           · simp only [length_modAt]; exact hg.fits.m
           · intro ch' h'; cases h'
         · cases hstep
@@ -697,9 +752,9 @@ theorem good_step {H : Decl → Nat} {x : Extra} {st st' : St} {e : Ev} (hg : Go
     | fail => cases hstep
   | none =>
     simp only [hch] at hstep
-    have same : ∀ c : Ctx, x.n0 ≤ c.names.length → c.aligned → c.fns = st.ctx.fns → ∀ stk, Good x ⟨c, stk, none⟩ := by
+    have same : ∀ c : Ctx, x.n0 ≤ c.names.length → c.aligned → c.fns = st.ctx.fns → ∀ stk, Good x ⟨c, stk, none, st.fmark, st.journal⟩ := by
       intro c h1 h2 h3 stk
-      exact ⟨⟨h1, h2, by rw [h3]; exact hg.fits.m⟩, by intro ch' h'; cases h'⟩
+      exact ⟨⟨h1, h2, by rw [h3]; exact hg.fits.m⟩, (by intro ch' h'; cases h'), hg.mark⟩
     cases e with
     | reg n r =>
       simp only at hstep
@@ -762,7 +817,7 @@ theorem good_step {H : Decl → Nat} {x : Extra} {st st' : St} {e : Ev} (hg : Go
       · cases hstep
       · cases hstep
         have hlen := length_createOrReplace st.ctx.fns n a fid
-        refine ⟨⟨hg.fits.n, hal, Nat.le_trans hg.fits.m hlen⟩, ?_⟩
+        refine ⟨⟨hg.fits.n, hal, Nat.le_trans hg.fits.m hlen⟩, ?_, hg.mark⟩
         intro ch' h'
         simp only [Option.some.injEq] at h'
         subst h'
@@ -815,7 +870,7 @@ theorem step_lift {H : Decl → Nat} {x : Extra} (hx : x.wf) {st : St} (hg : Goo
     ∃ g', step H (liftSt x g st) (e.ren x.ρ) = (step H st e).map (liftSt x g') ∧
       (∀ s, step H st e = .ok s → s.child ≠ none → g' = s.ctx.fbacked) := by
   have hf := hg.fits
-  obtain ⟨c, stk, child⟩ := st
+  obtain ⟨c, stk, child, fm, jr⟩ := st
   cases child with
   | some ch =>
     have hgeq : g = c.fbacked := hgc (by simp)
@@ -922,7 +977,7 @@ theorem step_lift {H : Decl → Nat} {x : Extra} (hx : x.wf) {st : St} (hg : Goo
         · have hex' : ¬ (lift x g c).exec > 0 := hex
           simp only [hex, hex', if_false, Except.map]
           congr 1
-          simp only [e2, createOrReplace_lift hf.m hk fid]
+          simp only [e2, createOrReplace_lift hf.m hk fid, journalEntry_lift hf.m hk]
           simp [lift, liftSt]
       · intro s hs hne
         simp only [step] at hs
@@ -994,8 +1049,42 @@ theorem unwind_lift {x : Extra} (hx : x.wf) {st : St} (hg : Good x st) (g : Opti
     rw [hr]
     exact unwindFrames_lift hx st.stack hfr _
 
+theorem fits_parsingEnd {H : Decl → Nat} {x : Extra} {c1 : Ctx} (h : Fits x c1) : Fits x (parsingEnd H c1) := by
+  refine ⟨h.n, ?_, h.m⟩
+  have := h.al
+  unfold Ctx.aligned at this ⊢
+  have hl : ∀ (bs : List Backup) (tds : List TD), (restoreAll H bs tds).length = tds.length := by
+    intro bs
+    induction bs with
+    | nil => intro tds; rfl
+    | cons b bs ih => intro tds; simp only [restoreAll, restoreOne]; rw [ih, length_modAt]
+  simp only [parsingEnd, hl]; exact this
+
+/-- the whole catch path of `Parser::parse` — inner catch blocks, `parsingRevert`, `parsingEnd` — commutes with the insertion -/
+theorem reject_lift {H : Decl → Nat} {x : Extra} (hx : x.wf) {st : St} (hg : Good x st) (g : Option Fn)
+    (hgc : st.child ≠ none → g = st.ctx.fbacked) :
+    ∃ g', rejectCtx H (liftSt x g st) = lift x g' (rejectCtx H st) ∧ Fits x (rejectCtx H st) := by
+  obtain ⟨g2, hu, hfu⟩ := unwind_lift hx hg g hgc
+  have hfit' : Fits x { unwind st with fns := revertFns st.fmark st.journal (unwind st).fns } := by
+    refine ⟨hfu.n, hfu.al, ?_⟩
+    simp only [length_revertFns]
+    have := hg.mark; have := hfu.m
+    omega
+  refine ⟨g2, ?_, fits_parsingEnd hfit'⟩
+  have hrev := revertFns_lift x.m0 x.fns hg.mark st.journal hfu.m
+  have hc : { lift x g2 (unwind st) with fns := revertFns (liftSt x g st).fmark (liftSt x g st).journal (lift x g2 (unwind st)).fns }
+      = lift x g2 { unwind st with fns := revertFns st.fmark st.journal (unwind st).fns } := by
+    simp only [lift, liftSt, Ctx.mk.injEq, and_true, true_and]
+    exact hrev
+  simp only [rejectCtx]
+  rw [hu, hc, parsingEnd_lift hx hfit' g2]
+
+theorem init_lift {x : Extra} {c : Ctx} (hf : Fits x c) (g : Option Fn) : St.init (lift x g c) = liftSt x g (St.init c) := by
+  simp only [St.init, liftSt, List.map_nil, St.mk.injEq, and_true, true_and]
+  exact ⟨rfl, length_ins _ _ _ hf.m⟩
+
 theorem good_init {x : Extra} {c : Ctx} (hf : Fits x c) : Good x (St.init c) :=
-  ⟨⟨hf.n, hf.al, hf.m⟩, by intro ch h; cases h⟩
+  ⟨⟨hf.n, hf.al, hf.m⟩, (by intro ch h; cases h), hf.m⟩
 
 /-- **a whole parse commutes with the insertion**: the outcome in the disturbed context is the outcome in the undisturbed
 one with the left-overs inserted (same verdict) -/
@@ -1003,7 +1092,7 @@ theorem parseText_lift {H : Decl → Nat} {x : Extra} (hx : x.wf) {c : Ctx} (hf 
     (he : evs.all (Ev.avoids x) = true) (g : Option Fn) :
     ∃ g', parseText H (lift x g c) (evs.map (Ev.ren x.ρ)) = (parseText H c evs).map (lift x g') := by
   have hg0 : Good x (St.init c) := good_init hf
-  have hinit : St.init (lift x g c) = liftSt x g (St.init c) := rfl
+  have hinit : St.init (lift x g c) = liftSt x g (St.init c) := init_lift hf g
   obtain ⟨g1, h1, h2⟩ := run_lift (H := H) hx evs hg0 he g (by intro h; exact absurd rfl h)
   unfold parseText
   rw [hinit, h1]
@@ -1015,10 +1104,10 @@ theorem parseText_lift {H : Decl → Nat} {x : Extra} (hx : x.wf) {c : Ctx} (hf 
   have e2 : (liftSt x g1 st).child = st.child := rfl
   rw [e1, e2]
   by_cases hcond : (threw || !st.stack.isEmpty || st.child.isSome) = true
-  · obtain ⟨g2, hu, hfu⟩ := unwind_lift hx hgood g1 h2
+  · obtain ⟨g2, hu, hfu⟩ := reject_lift (H := H) hx hgood g1 h2
     refine ⟨g2, ?_⟩
     simp only [hcond, if_true, Outcome.map]
-    rw [hu, parsingEnd_lift hx hfu g2]
+    rw [hu]
   · refine ⟨g1, ?_⟩
     have : (liftSt x g1 st).ctx = lift x g1 st.ctx := rfl
     rw [this, parsingEnd_lift hx hgood.fits g1]
@@ -1173,7 +1262,7 @@ theorem parseTextN_lift {H : Decl → Nat} {x : Extra} (hx : x.wf) {c : Ctx} (hf
     (he : evs.all (NEv.avoids x) = true) (g : Option Fn) :
     ∃ g', parseTextN H (lift x g c) evs = (parseTextN H c evs).map (lift x g') ∧ Fits x (parseTextN H c evs).ctx := by
   have hg0 : Good x (St.init c) := good_init hf
-  have hinit : St.init (lift x g c) = liftSt x g (St.init c) := rfl
+  have hinit : St.init (lift x g c) = liftSt x g (St.init c) := init_lift hf g
   obtain ⟨g1, h1, h2, hgood⟩ := nrun_lift (H := H) hx evs hg0 he g (by intro h; exact absurd rfl h)
   unfold parseTextN
   rw [hinit, h1]
@@ -1183,23 +1272,13 @@ theorem parseTextN_lift {H : Decl → Nat} {x : Extra} (hx : x.wf) {c : Ctx} (hf
   have e1 : (liftSt x g1 st).stack.isEmpty = st.stack.isEmpty := by simp [liftSt]
   have e2 : (liftSt x g1 st).child = st.child := rfl
   rw [e1, e2]
-  have hpe : ∀ c1 : Ctx, Fits x c1 → Fits x (parsingEnd H c1) := by
-    intro c1 h
-    refine ⟨h.n, ?_, h.m⟩
-    have := h.al
-    unfold Ctx.aligned at this ⊢
-    have hl : ∀ (bs : List Backup) (tds : List TD), (restoreAll H bs tds).length = tds.length := by
-      intro bs
-      induction bs with
-      | nil => intro tds; rfl
-      | cons b bs ih => intro tds; simp only [restoreAll, restoreOne]; rw [ih, length_modAt]
-    simp only [parsingEnd, hl]; exact this
+  have hpe : ∀ c1 : Ctx, Fits x c1 → Fits x (parsingEnd H c1) := fun c1 h => fits_parsingEnd h
   by_cases hcond : (threw || !st.stack.isEmpty || st.child.isSome) = true
-  · obtain ⟨g2, hu, hfu⟩ := unwind_lift hx hgood g1 h2
+  · obtain ⟨g2, hu, hfu⟩ := reject_lift (H := H) hx hgood g1 h2
     refine ⟨g2, ?_, ?_⟩
     · simp only [hcond, if_true, Outcome.map]
-      rw [hu, parsingEnd_lift hx hfu g2]
-    · simp only [hcond, if_true, Outcome.ctx]; exact hpe _ hfu
+      rw [hu]
+    · simp only [hcond, if_true, Outcome.ctx]; exact hfu
   · refine ⟨g1, ?_, ?_⟩
     · have : (liftSt x g1 st).ctx = lift x g1 st.ctx := rfl
       rw [this, parsingEnd_lift hx hgood.fits g1]
@@ -1278,7 +1357,7 @@ theorem coherent_parseText {H : Decl → Nat} {c : Ctx} (hidle : c.idle = true) 
     obtain ⟨_, o2, _⟩ := unwindFrames_other st.stack (match st.child with | some _ => rollbackCtx st.ctx | none => st.ctx)
     exact o2.trans (by cases st.child <;> simp [rollbackCtx])
   split
-  · simp only [Outcome.ctx, Ctx.coherent, parsingEnd, hun]
+  · simp only [Outcome.ctx, Ctx.coherent, rejectCtx, parsingEnd, hun]
     exact coherent_restoreAll H _ _ hc
   · simp only [Outcome.ctx, Ctx.coherent, parsingEnd]
     exact coherent_restoreAll H _ _ hc
